@@ -13,7 +13,7 @@ import vlib, scalar, caltab
 LEVEL = "exploration"
 MANIFEST = dict(cat=LEVEL, ref="DESIGN.md 3.10, 6 (C20)",
     tech="TLA+ oracle Scalar.tla (strings as code-point sequences, boundary-relative integer pairs, exact rationals, NULL propagation table) evaluated by TLC over finite domains with meta-invariants on the oracle (REVERSE involutive, LEFT/RIGHT complement, length additivity, pad lengths, first-occurrence minimality, pair arithmetic = native arithmetic on a scaled word, division/rounding laws); every generated application is rendered to SQL in two evaluation contexts (literal arguments / arguments read from a table), run on TurDB and compared with the admissible set; date functions against the Calendar.tla table",
-    text="~36 000 (quick) / ~58 000 (thorough) applications of CHAR_LENGTH LENGTH REVERSE ASCII UPPER LOWER TRIM LTRIM RTRIM LEFT RIGHT SUBSTR/SUBSTRING INSTR LOCATE POSITION REPLACE CONCAT CONCAT_WS LPAD RPAD REPEAT STRCMP, + - * / % unary minus ABS SIGN MOD on all pairs of integers around 0, +-2^62 and the i64 limits (overflow must be an error, never a wrapped value or a panic; division by zero NULL or error), CEIL FLOOR ROUND TRUNCATE on quarters, GREATEST LEAST COALESCE IFNULL NULLIF IF CASE, CAST among int/float/text/date, and NULL in every argument position of every strict function, each in two contexts; YEAR MONTH DAY DAYOFWEEK DAYOFYEAR QUARTER LAST_DAY WEEKDAY on every date of 1..9999 (thorough) or a stratified subset (quick). DATE_ADD/DATE_SUB/DATEDIFF are judged for every date in C41",
+    text="35 979 (quick) / 44 867 (thorough) applications of CHAR_LENGTH LENGTH REVERSE ASCII UPPER LOWER TRIM LTRIM RTRIM LEFT RIGHT SUBSTR/SUBSTRING INSTR LOCATE POSITION REPLACE CONCAT CONCAT_WS LPAD RPAD REPEAT STRCMP, + - * / % unary minus ABS SIGN MOD on all pairs of integers around 0, +-2^62 and the i64 limits (overflow must be an error, never a wrapped value or a panic; division by zero NULL or error), CEIL FLOOR ROUND TRUNCATE on quarters, GREATEST LEAST COALESCE IFNULL NULLIF IF CASE, CAST among int/float/text/date, and NULL in every argument position of every strict function, each in two contexts; YEAR MONTH DAY DAYOFWEEK DAYOFYEAR QUARTER LAST_DAY WEEKDAY on every date of 1..9999 (thorough) or a stratified subset (quick). DATE_ADD/DATE_SUB/DATEDIFF are judged for every date in C41",
     note="not specified (no exact definition over TLC's integers): SQRT POW EXP LOG* trigonometry, RAND, NOW/CUR*, DATE_FORMAT/locale formatting, UPPER/LOWER outside ASCII. Where SQL / the documentation leaves a choice (division by zero, GREATEST with NULL, CAST float->int rounding, SUBSTR with a negative position before the start, ASCII of a non-ASCII character, int/int division) every admissible outcome is accepted; an integer result delivered as an integral double is accepted as the same number")
 
 SELFTEST = os.environ.get("VERIF_SELFTEST") == "1"
